@@ -86,7 +86,7 @@ class P(Prop):
             "of the argument, and vice versa; non-trivial = call returned a circuit or raised")
     assumptions = ["the static side (ownership skeletons + Lean analysis) is tied to the code by tools/extract_own.py; this "
                    "harness validates its classification tables dynamically"]
-    budget = {"quick": (25, 25), "thorough": (400, 400)}
+    budget = {"quick": (100, 100), "thorough": (400, 400)}
 
     def functions(self, c, other):
         rng = self.rng
